@@ -20,9 +20,11 @@ CHECKS = {
              "every nondecreasing history (induction, no bound). The model is tied to samply/src/shared/context_switch.rs in both ways: (a) tools/xlate_cs.py translates the five methods of "
              "`impl ContextSwitchHandler` into Gallina on every run (Generated/ContextSwitchGen.v) and C12_translation_agrees proves that translation equal to the model for every I > 0 and every "
              "event sequence, so C12_conservation_of_translation is a theorem about the current source; (b) the file is compiled into the harness by #[path], generated histories are run, and the "
-             "verified boolean checker and the model are evaluated inside Coq on the implementation's outputs.",
+             "verified boolean checker and the model are evaluated inside Coq on the implementation's outputs; (c) end to end through the converter: recordings with PERF_RECORD_SWITCH records "
+             "(in / out / out with the preempted flag) and samples of one thread are converted by `samply import` and the CPU delta serialized with each sample is compared with the model's, "
+             "the clause 'the deltas handed out sum to the time observed running' being decided on the observation (Tie/C12.v verdict_e2e).",
         note="Trusted: Coq kernel; tools/xlate_cs.py (the reading of the Rust subset: u64 arithmetic with panics on underflow / division by zero / debug_assert, struct updates, match on the state enum); harness h_incl (reads the private accumulators through the Debug rendering); generators. "
-             "Hypotheses: I > 0, nondecreasing timestamps (the property's quantifier). Not covered: the converter constructing the handler with interval 0; per_cpu.rs callers.",
+             "Hypotheses: I > 0, nondecreasing timestamps (the property's quantifier). Not covered: the converter constructing the handler with interval 0; per_cpu.rs callers; off-CPU samples end to end (the converter emits them only with a sched:sched_switch stack).",
         technique="Coq proof (invariant + conservation by induction over the event history) over a model that is proved equal to a translation of the source regenerated on every run + differential correspondence run with a verified checker evaluated by vm_compute",
         design="4/C12"),
     "C04": dict(
@@ -87,9 +89,10 @@ CHECKS = {
         text="Coq theorems C18_no_prefix_no_cors (every request whose path does not begin with /token - any method, path, Access-Control-Request-* headers, with or without a "
              "profile - gets no Access-Control-* header and only the landing page (GET /) or an empty 404), C18_prefix_characterised, C18_prefix_dispatch and C18_token_shape, C18_token_injective (different 24-byte strings give different tokens) "
              "(24 bytes, regenerated from the source, encode to 39 characters of the 32-symbol alphabet; the encoder model reproduces the crate's own test vector). "
-             "Tied to the real server: `samply load` is started several times, ~600 raw HTTP requests per run are classified and checker + model are evaluated in Coq; tokens of all runs are distinct.",
+             "Tied to the real server: `samply load` is started several times, ~900 raw HTTP requests per run (every path also with an Origin header naming the server's own origin) are classified and checker + model are evaluated in Coq; "
+             "tokens of all runs are distinct and the 24 bytes each encodes take at least 10 distinct values - C18_token_variety_arith: fewer than one 24-byte string in 10^19 has less variety (a closed computation; the combinatorial reading of the count is not proved).",
         note="Trusted: Coq kernel; hyper's parsing (uri().path() is the raw path); Python raw-socket client. Not provable: unpredictability of the token (entropy of rand::rng()); "
-             "injectivity of the base32 encoding is not proved (only length and alphabet). has_profile = false is proved but unreachable from the CLI.",
+             "has_profile = false is proved but unreachable from the CLI.",
         technique="Coq proof (case analysis of the routing function over all methods/paths/headers; encoder length/alphabet) + end-to-end correspondence run against the running server, evaluated by vm_compute",
         design="4/C18"),
     "C15": dict(
@@ -164,7 +167,7 @@ CHECKS = {
              "(CandidatePathInfo::InDyldCache; the cache holding the requested build, another build under the same install path, or no such path) and corrupted companion files, and evaluating the model on the "
              "standalone outcomes of the same candidates.",
         note="Trusted: Coq kernel; harness h_symbols (in-memory helper, own CRC32); Python's independent LC_UUID / build-id -> debug id computation. Each candidate is abstracted to its standalone outcome "
-             "(which id samply itself reads from the file; for an image inside a generated shared cache: the LC_UUID the generator put there).",
+             "(which id samply itself reads from the file; for an image inside a generated shared cache: the LC_UUID the generator put there; for every ELF candidate the id is also compared with an independent reading of its GNU build-id note).",
         technique="Coq proof (characterisation of the first-match candidate loops, id comparisons and fat member selection) + differential correspondence run evaluated by vm_compute",
         design="4/C06"),
     "C16": dict(
